@@ -221,6 +221,9 @@ def outContent (e : Env) (bm : BuildM) (out : Bytes) : Bytes :=
 /-- Is this the manifest-generator command (`gen ...`: copies its first explicit input)? -/
 def isGen (bm : BuildM) : Bool := (bm.cmdline.getD []).take 4 == [103, 101, 110, 32]
 
+/-- Is this a command that also rewrites one of its inputs (`rw ...`)? -/
+def isRw (bm : BuildM) : Bool := (bm.cmdline.getD []).take 3 == [114, 119, 32]
+
 /-- Effects of a successful command on the tree (outputs get the next clock value). -/
 def runCommand (e : Env) (b : Nat) : Env :=
   match buildOf e.g b with
@@ -236,6 +239,13 @@ def runCommand (e : Env) (b : Nat) : Env :=
           | none => []
         else outContent e bm name
       fs.put name ⟨clock, content⟩) e.fs
+    -- `rw ...` commands also rewrite their last dirtying input in place (like a CMake
+    -- regeneration step touching CMakeCache.txt), after having read it
+    let fs := if isRw bm then
+        match bm.dirtying.getLast? with
+        | some f => fs.put (fileName e.g f) ⟨clock, outContent e bm (fileName e.g f)⟩
+        | none => fs
+      else fs
     { e with fs := fs, clock := clock }
 
 /-- A command succeeded: its effects, then `record_finished` with what it reported. -/
